@@ -209,16 +209,90 @@ void GOMP_parallel(void (*fn)(void*), void* data, unsigned num_threads, unsigned
         g_region++;
     }
 }
-void GOMP_barrier(void)
+static void passBarrier();
+static void regionEdge();
+static void passBarrier()
 {
-    static void (*real)(void) = (void (*)(void))dlsym(RTLD_NEXT, "GOMP_barrier");
     if (g_on) {
         TState& s = st();
         flush(s);
         sync(s);
         s.barriers++;
     }
+}
+static void regionEdge()
+{
+    if (g_on) {
+        for (TState* s : g_states)
+            flush(*s);
+        g_region++;
+    }
+}
+void GOMP_barrier(void)
+{
+    static void (*real)(void) = (void (*)(void))dlsym(RTLD_NEXT, "GOMP_barrier");
+    passBarrier();
     real();
+}
+// work-sharing loops with a non-static schedule and sections end in a runtime call that contains the barrier
+void GOMP_loop_end(void)
+{
+    static void (*real)(void) = (void (*)(void))dlsym(RTLD_NEXT, "GOMP_loop_end");
+    passBarrier();
+    real();
+}
+bool GOMP_loop_end_cancel(void)
+{
+    static bool (*real)(void) = (bool (*)(void))dlsym(RTLD_NEXT, "GOMP_loop_end_cancel");
+    passBarrier();
+    return real();
+}
+void GOMP_sections_end(void)
+{
+    static void (*real)(void) = (void (*)(void))dlsym(RTLD_NEXT, "GOMP_sections_end");
+    passBarrier();
+    real();
+}
+bool GOMP_sections_end_cancel(void)
+{
+    static bool (*real)(void) = (bool (*)(void))dlsym(RTLD_NEXT, "GOMP_sections_end_cancel");
+    passBarrier();
+    return real();
+}
+// combined parallel + loop constructs with a non-static schedule open a region through their own entry points
+#define VERIF_PARALLEL_LOOP_CHUNK(name)                                                                                \
+    void name(void (*fn)(void*), void* data, unsigned nth, long a, long b, long c, long chunk, unsigned flags)         \
+    {                                                                                                                  \
+        typedef void (*fn_t)(void (*)(void*), void*, unsigned, long, long, long, long, unsigned);                      \
+        static fn_t real = (fn_t)dlsym(RTLD_NEXT, #name);                                                              \
+        regionEdge();                                                                                                  \
+        real(fn, data, nth, a, b, c, chunk, flags);                                                                    \
+        regionEdge();                                                                                                  \
+    }
+#define VERIF_PARALLEL_LOOP_NOCHUNK(name)                                                                              \
+    void name(void (*fn)(void*), void* data, unsigned nth, long a, long b, long c, unsigned flags)                     \
+    {                                                                                                                  \
+        typedef void (*fn_t)(void (*)(void*), void*, unsigned, long, long, long, unsigned);                            \
+        static fn_t real = (fn_t)dlsym(RTLD_NEXT, #name);                                                              \
+        regionEdge();                                                                                                  \
+        real(fn, data, nth, a, b, c, flags);                                                                           \
+        regionEdge();                                                                                                  \
+    }
+VERIF_PARALLEL_LOOP_CHUNK(GOMP_parallel_loop_static)
+VERIF_PARALLEL_LOOP_CHUNK(GOMP_parallel_loop_dynamic)
+VERIF_PARALLEL_LOOP_CHUNK(GOMP_parallel_loop_guided)
+VERIF_PARALLEL_LOOP_CHUNK(GOMP_parallel_loop_nonmonotonic_dynamic)
+VERIF_PARALLEL_LOOP_CHUNK(GOMP_parallel_loop_nonmonotonic_guided)
+VERIF_PARALLEL_LOOP_NOCHUNK(GOMP_parallel_loop_runtime)
+VERIF_PARALLEL_LOOP_NOCHUNK(GOMP_parallel_loop_nonmonotonic_runtime)
+VERIF_PARALLEL_LOOP_NOCHUNK(GOMP_parallel_loop_maybe_nonmonotonic_runtime)
+void GOMP_parallel_sections(void (*fn)(void*), void* data, unsigned nth, unsigned count, unsigned flags)
+{
+    typedef void (*fn_t)(void (*)(void*), void*, unsigned, unsigned, unsigned);
+    static fn_t real = (fn_t)dlsym(RTLD_NEXT, "GOMP_parallel_sections");
+    regionEdge();
+    real(fn, data, nth, count, flags);
+    regionEdge();
 }
 }
 
